@@ -512,6 +512,30 @@ def k_fixed(c):
     if 'fwhm' in c.get('free', []):
         t['fwhm'] = [c['fwhm_init']] * len(src)
     phot = PSFPhotometry(m, c['fit_shape'], grouper=SourceGrouper(c['minsep']) if c.get('minsep') else None)
+    if c.get('units'):
+        # data in Jy, the initial fluxes given in mJy (an equivalent unit): same physical scene
+        import astropy.units as u
+        from astropy.table import QTable
+        qt = QTable(t)
+        qt['flux'] = np.array(t['flux'], float) * 1000.0 * u.mJy
+        res = phot(data * u.Jy, init_params=qt)
+        desc = f'fixed-parameter case {c}'
+        out = []
+        ff = [float(v) for v in res['flux_fit'].to_value(u.Jy)]
+        fi = [float(v) for v in res['flux_init'].to_value(u.Jy)]
+        want = [float(v[2]) for v in c['init']]
+        out.append((max(abs(a / b - 1) for a, b in zip(ff, want)) <= 1e-12 and
+                    max(abs(a / b - 1) for a, b in zip(fi, want)) <= 1e-12,
+                    'fixed-parameter/keeps-initial-value-across-equivalent-units',
+                    f'{desc}: flux_fit {ff} Jy, flux_init {fi} Jy, given {want} Jy (as mJy)', {'fit': ff}))
+        for p_, col_ in (('x_0', 'x'), ('y_0', 'y')):
+            if p_ in c['fixed']:
+                continue
+            a = [float(v) for v in _colval(res[f'{col_}_fit'])]
+            tr = [s_[0 if p_ == 'x_0' else 1] for s_ in src]
+            e = max(abs(u_ - v_) for u_, v_ in zip(a, tr))
+            out.append((e <= 1e-6, 'fixed-parameter/free-ones-recovered', f'{desc}: free {p_} off by {e:.2e}', {'err': e}))
+        return out
     res = phot(data, init_params=t)
     desc = f'fixed-parameter case {c}'
     out = []
@@ -890,6 +914,11 @@ def run(ctx):
             em.do({'kind': 'fixed', 'shape': [27, 29], 'fwhm': 2.4, 'fwhm_init': 2.4 if 'fwhm' not in free else 2.7,
                    'sources': sources, 'init': init, 'fixed': fixed, 'free': free, 'fit_shape': [5, 7][fx % 2],
                    'minsep': 5.0 if len(sources) > 1 else None}, 'fixed-parameters')
+    # forced flux with the initial fluxes in an equivalent unit of the data unit
+    for sources in ([[12.3, 10.6, 100.0]], [[6.2, 7.1, 100.0], [20.4, 18.3, 60.0]]):
+        init = [[s[0] + 0.25, s[1] - 0.2, s[2]] for s in sources]
+        em.do({'kind': 'fixed', 'shape': [27, 29], 'fwhm': 2.4, 'fwhm_init': 2.4, 'sources': sources, 'init': init,
+               'fixed': ['flux'], 'free': [], 'fit_shape': 5, 'minsep': None, 'units': True}, 'fixed-parameters')
     # finder-driven
     for fi, sources in enumerate(([[12.3, 10.6, 100.0]], [[6.2, 7.1, 100.0], [22.4, 19.3, 60.0]],
                                  [[6.2, 7.1, 100.0], [22.4, 19.3, 60.0], [7.9, 21.7, 80.0], [23.1, 6.4, 150.0]])):
